@@ -1,4 +1,5 @@
 import PdeVerif.Model.Heap
+import PdeVerif.Model.HandOut
 import PdeVerif.Lemmas.Heap
 /-
 C15 - fields share or isolate memory exactly as documented.
@@ -986,5 +987,485 @@ example : ((run exGrid2 {} exTensor).objs.map (·.view)) =
       [none, none, none, none, some 3, none, none, none, none,
        none, none, none, none, some 3, none, none, none, none] ∧
     ((run exGrid2 {} exTensor).denote 0).take 2 = [some 7, some 0] := by decide +kernel
+
+/-! ## containers handed out and taken by the API (list objects; `Model/HandOut.lean`) -/
+
+section
+variable {K : Type} [Add K] [Sub K] [Mul K] [Div K] [Neg K] [NatCast K] [DCast K]
+variable {G : List Grid}
+
+/-! ### containers handed out and taken by the API -/
+
+/-- no list object of the caller is the member list of a collection -/
+def AllDetached (w : World K) : Prop := ∀ L ∈ w.lists, L.owners = []
+
+theorem setMembers_nil (s : State K) (ms : List Nat) : setMembers s [] ms = s := rfl
+
+theorem xrun_cons (a : Bool) (w : World K) (op : XOp K) (ops : List (XOp K)) :
+    xrun a G w (op :: ops) =
+      xrun a G (match xstep a G w op with | .ok w' => w' | .error _ => w) ops := by
+  simp only [xrun]; cases xstep a G w op <;> rfl
+
+theorem xrun_append (a : Bool) (w : World K) (ops₁ ops₂ : List (XOp K)) :
+    xrun a G w (ops₁ ++ ops₂) = xrun a G (xrun a G w ops₁) ops₂ := by
+  induction ops₁ generalizing w with
+  | nil => rfl
+  | cons op ops ih => simp only [List.cons_append, xrun_cons, ih]
+
+/-- `lst = fc.fields` / `list(fc.labels)`: nothing in the world changes; the caller holds one more list
+object, it reads the members in order and it is the member list of no collection -/
+theorem handOut_spec {w w' : World K} {kind : ListKind} {c : Nat} (h : handOut w kind c = .ok w') :
+    w'.heap = w.heap ∧ ∃ o, w.heap.objs[c]? = some o ∧ o.cls = .coll ∧
+      w'.lists = w.lists ++ [⟨kind, o.members, []⟩] := by
+  unfold handOut getObj at h
+  cases ho : w.heap.objs[c]? with
+  | none => simp [ho] at h
+  | some o =>
+    simp only [ho] at h
+    by_cases hc : o.cls = .coll
+    · simp only [hc, beq_self_eq_true, if_true, Except.ok.injEq] at h
+      subst h
+      exact ⟨rfl, o, rfl, hc, rfl⟩
+    · have : (o.cls == Cls.coll) = false := by simpa using hc
+      simp [this] at h
+
+theorem fieldsOf_spec {a : Bool} {w w' : World K} {c : Nat} (h : xstep a G w (.fieldsOf c) = .ok w') :
+    w'.heap = w.heap ∧ ∃ o, w.heap.objs[c]? = some o ∧ o.cls = .coll ∧
+      w'.lists = w.lists ++ [⟨.fields, o.members, []⟩] := handOut_spec h
+
+theorem labelsOf_spec {a : Bool} {w w' : World K} {c : Nat} (h : xstep a G w (.labelsOf c) = .ok w') :
+    w'.heap = w.heap ∧ ∃ o, w.heap.objs[c]? = some o ∧ o.cls = .coll ∧
+      w'.lists = w.lists ++ [⟨.labels, o.members, []⟩] := handOut_spec h
+
+/-- what an in-place operation on list object `l` does -/
+theorem edit_spec {a : Bool} {w w' : World K} {l : Nat} {e : ListEdit}
+    (h : xstep a G w (.edit l e) = .ok w') :
+    ∃ L items, w.lists[l]? = some L ∧ e.apply L.items = .ok items ∧
+      w'.heap = setMembers w.heap L.owners items ∧
+      w'.lists = w.lists.modify l (fun L => { L with items := items }) := by
+  simp only [xstep] at h
+  cases hl : w.lists[l]? with
+  | none => simp [hl] at h
+  | some L =>
+    simp only [hl] at h
+    cases he : e.apply L.items with
+    | error er => simp [he] at h
+    | ok items =>
+      simp only [he, Except.ok.injEq] at h
+      subst h
+      exact ⟨L, items, rfl, he, rfl, rfl⟩
+
+/-- **a list without owner is a copy**: an in-place operation on it changes nothing in the heap - no
+cell, no view, no object, no member list of any collection -/
+theorem edit_detached {a : Bool} {w w' : World K} {l : Nat} {e : ListEdit} {L : PyList}
+    (hl : w.lists[l]? = some L) (hd : L.owners = [])
+    (h : xstep a G w (.edit l e) = .ok w') : w'.heap = w.heap := by
+  obtain ⟨L', items, hl', _, hh, _⟩ := edit_spec h
+  rw [hl] at hl'; cases hl'
+  rw [hh, hd]; rfl
+
+/-- an in-place operation on list `l` leaves every other list object as it is, and the edited one
+keeps its kind and its owners -/
+theorem edit_other_lists {a : Bool} {w w' : World K} {l : Nat} {e : ListEdit}
+    (h : xstep a G w (.edit l e) = .ok w') :
+    (∀ j, j ≠ l → w'.lists[j]? = w.lists[j]?) ∧
+    (w'.lists[l]?).map (fun L => (L.kind, L.owners)) = (w.lists[l]?).map (fun L => (L.kind, L.owners)) := by
+  obtain ⟨L, items, hl, _, _, hls⟩ := edit_spec h
+  rw [hls]
+  refine ⟨fun j hj => ?_, ?_⟩
+  · rw [List.getElem?_modify]; simp [Ne.symm hj]
+  · rw [List.getElem?_modify]; simp [hl]
+
+theorem foldl_modify_members_length (cs : List Nat) (ms : List Nat) (objs : List Obj) :
+    (cs.foldl (fun objs c => objs.modify c (fun o => { o with members := ms })) objs).length = objs.length := by
+  induction cs generalizing objs with
+  | nil => rfl
+  | cons c cs ih => simp only [List.foldl_cons, ih, List.length_modify]
+
+theorem foldl_modify_members_get (cs : List Nat) (ms : List Nat) (objs : List Obj) (i : Nat) :
+    (cs.foldl (fun objs c => objs.modify c (fun o => { o with members := ms })) objs)[i]? =
+      (objs[i]?).map (fun o => if i ∈ cs then { o with members := ms } else o) := by
+  induction cs generalizing objs with
+  | nil => simp
+  | cons c cs ih =>
+    simp only [List.foldl_cons, ih, List.getElem?_modify, List.mem_cons]
+    by_cases hci : c = i
+    · subst hci
+      cases objs[c]? with
+      | none => simp
+      | some o => by_cases hm : c ∈ cs <;> simp [hm]
+    · have : ¬ i = c := fun h => hci h.symm
+      simp [hci, this]
+
+/-- **an in-place list operation never touches memory**, whoever owns the list: the store, the array
+every object looks at and the array its `data` was carved from are unchanged, classes, grids and
+component counts too; the only thing that can change is the `members` entry of the owners -/
+theorem edit_never_touches_memory {a : Bool} {w w' : World K} {l : Nat} {e : ListEdit}
+    (h : xstep a G w (.edit l e) = .ok w') :
+    w'.heap.store = w.heap.store ∧ w'.heap.dviews = w.heap.dviews ∧
+    w'.heap.objs.length = w.heap.objs.length ∧
+    ∀ i : Nat, (w'.heap.objs[i]?).map (fun o : Obj => (o.cls, o.grid, o.ncomp, o.view)) =
+         (w.heap.objs[i]?).map (fun o : Obj => (o.cls, o.grid, o.ncomp, o.view)) := by
+  obtain ⟨L, items, _, _, hh, _⟩ := edit_spec h
+  rw [hh]
+  refine ⟨rfl, rfl, foldl_modify_members_length _ _ _, fun i => ?_⟩
+  simp only [setMembers, foldl_modify_members_get]
+  cases w.heap.objs[i]? with
+  | none => rfl
+  | some o => by_cases hm : i ∈ L.owners <;> simp [hm]
+
+/-- an edit of a list that IS the member list of collection `c` is an edit of the collection -/
+theorem edit_owned_changes_members {a : Bool} {w w' : World K} {l c : Nat} {e : ListEdit} {L : PyList}
+    {o : Obj} (hl : w.lists[l]? = some L) (hc : c ∈ L.owners) (ho : w.heap.objs[c]? = some o)
+    (h : xstep a G w (.edit l e) = .ok w') :
+    ∃ items, e.apply L.items = .ok items ∧ w'.heap.objs[c]? = some { o with members := items } := by
+  obtain ⟨L', items, hl', he, hh, _⟩ := edit_spec h
+  rw [hl] at hl'; cases hl'
+  refine ⟨items, he, ?_⟩
+  rw [hh]; simp only [setMembers, foldl_modify_members_get, ho, Option.map_some, hc, if_true]
+
+/-- the operation makes list object `l` the member list of a collection -/
+def keeps (a : Bool) (l : Nat) : XOp K → Prop
+  | .mkCollFrom l' cp _ => a = true ∧ l' = l ∧ cp = false
+  | _ => False
+
+/-- the owners of a list object change only when the list is handed to a constructor that keeps it -/
+theorem owners_step {a : Bool} {w w' : World K} {op : XOp K} {l : Nat} (hl : l < w.lists.length)
+    (hk : ¬ keeps a l op) (h : xstep a G w op = .ok w') :
+    (w'.lists[l]?).map (·.owners) = (w.lists[l]?).map (·.owners) := by
+  cases op with
+  | heap o =>
+    simp only [xstep] at h
+    cases hs : step G w.heap o with
+    | error e => simp [hs] at h
+    | ok s' => simp only [hs, Except.ok.injEq] at h; subst h; rfl
+  | fieldsOf c =>
+    obtain ⟨_, o, _, _, hls⟩ := fieldsOf_spec h
+    rw [hls, List.getElem?_append_left hl]
+  | labelsOf c =>
+    obtain ⟨_, o, _, _, hls⟩ := labelsOf_spec h
+    rw [hls, List.getElem?_append_left hl]
+  | userList hs =>
+    simp only [xstep, Except.ok.injEq] at h; subst h
+    simp only [List.getElem?_append_left hl]
+  | mkCollFrom l' cp dt =>
+    simp only [xstep] at h
+    cases hl' : w.lists[l']? with
+    | none => simp [hl'] at h
+    | some L =>
+      simp only [hl'] at h
+      split at h
+      · simp at h
+      · cases hm : mkColl w.heap L.items cp dt with
+        | error e => simp [hm] at h
+        | ok s' =>
+          simp only [hm] at h
+          split at h
+          · rename_i hcond
+            simp only [Except.ok.injEq] at h; subst h
+            simp only [List.getElem?_modify]
+            by_cases hll : l' = l
+            · exfalso; apply hk
+              simp only [Bool.and_eq_true, Bool.not_eq_true', decide_eq_true_eq] at hcond
+              exact ⟨hcond.1.1, hll, hcond.1.2⟩
+            · simp [hll]
+          · simp only [Except.ok.injEq] at h; subst h; rfl
+  | edit l' e =>
+    by_cases hll : l' = l
+    · subst hll
+      have := (edit_other_lists h).2
+      simpa [Option.map_map, Function.comp_def] using congrArg (Option.map Prod.snd) this
+    · rw [(edit_other_lists h).1 l (fun h' => hll h'.symm)]
+
+theorem lists_length_step {a : Bool} {w w' : World K} {op : XOp K} (h : xstep a G w op = .ok w') :
+    w.lists.length ≤ w'.lists.length := by
+  cases op with
+  | heap o =>
+    simp only [xstep] at h
+    cases hs : step G w.heap o with
+    | error e => simp [hs] at h
+    | ok s' => simp only [hs, Except.ok.injEq] at h; subst h; exact Nat.le_refl _
+  | fieldsOf c => obtain ⟨_, o, _, _, hls⟩ := fieldsOf_spec h; rw [hls]; simp
+  | labelsOf c => obtain ⟨_, o, _, _, hls⟩ := labelsOf_spec h; rw [hls]; simp
+  | userList hs => simp only [xstep, Except.ok.injEq] at h; subst h; simp
+  | mkCollFrom l' cp dt =>
+    simp only [xstep] at h
+    cases hl' : w.lists[l']? with
+    | none => simp [hl'] at h
+    | some L =>
+      simp only [hl'] at h
+      split at h
+      · simp at h
+      · cases hm : mkColl w.heap L.items cp dt with
+        | error e => simp [hm] at h
+        | ok s' =>
+          simp only [hm] at h
+          split at h
+          · simp only [Except.ok.injEq] at h; subst h; simp
+          · simp only [Except.ok.injEq] at h; subst h; exact Nat.le_refl _
+  | edit l' e =>
+    obtain ⟨_, _, _, _, _, hls⟩ := edit_spec h
+    rw [hls]; simp
+
+/-- a list object that is never handed to a constructor that keeps it has the same owners after every
+history -/
+theorem owners_xrun {a : Bool} {w : World K} {l : Nat} (hl : l < w.lists.length)
+    (ops : List (XOp K)) (hk : ∀ op ∈ ops, ¬ keeps a l op) :
+    ((xrun a G w ops).lists[l]?).map (·.owners) = (w.lists[l]?).map (·.owners) := by
+  induction ops generalizing w with
+  | nil => rfl
+  | cons op ops ih =>
+    rw [xrun_cons]
+    cases hs : xstep a G w op with
+    | error e => exact ih hl (fun o ho => hk o (List.mem_cons_of_mem _ ho))
+    | ok w' =>
+      simp only
+      rw [ih (Nat.lt_of_lt_of_le hl (lists_length_step hs)) (fun o ho => hk o (List.mem_cons_of_mem _ ho))]
+      exact owners_step hl (hk op List.mem_cons_self) hs
+
+/-- **C15, handed-out containers: the list returned by `fc.fields` is a copy.**  Whatever the caller
+does afterwards (any history `ops` of heap operations, further hand-outs, constructions from lists,
+edits of this or other lists - as long as this list object is not itself handed to a constructor that
+keeps it), every in-place operation on the list leaves the whole heap as it is: no cell, no view, no
+object and no member list of any collection changes.  Holds for both constructors (`a`). -/
+theorem handed_out_list_is_a_copy {a : Bool} {w w₁ w₂ : World K} {c : Nat}
+    (h : xstep a G w (.fieldsOf c) = .ok w₁) (ops : List (XOp K))
+    (hk : ∀ op ∈ ops, ¬ keeps a w.lists.length op) {e : ListEdit}
+    (he : xstep a G (xrun a G w₁ ops) (.edit w.lists.length e) = .ok w₂) :
+    w₂.heap = (xrun a G w₁ ops).heap := by
+  obtain ⟨_, o, _, _, hls⟩ := fieldsOf_spec h
+  have hlen : w.lists.length < w₁.lists.length := by rw [hls]; simp
+  have hown := owners_xrun (G := G) hlen ops hk
+  rw [hls] at hown
+  simp only [List.getElem?_concat_length, Option.map_some] at hown
+  obtain ⟨L, items, hl, _, _, _⟩ := edit_spec he
+  rw [hl] at hown
+  simp only [Option.map_some, Option.some.injEq] at hown
+  exact edit_detached hl hown he
+
+/-- the same for the list of labels (`list(fc.labels)`, `fc.labels[:]`) -/
+theorem handed_out_labels_are_a_copy {a : Bool} {w w₁ w₂ : World K} {c : Nat}
+    (h : xstep a G w (.labelsOf c) = .ok w₁) (ops : List (XOp K))
+    (hk : ∀ op ∈ ops, ¬ keeps a w.lists.length op) {e : ListEdit}
+    (he : xstep a G (xrun a G w₁ ops) (.edit w.lists.length e) = .ok w₂) :
+    w₂.heap = (xrun a G w₁ ops).heap := by
+  obtain ⟨_, o, _, _, hls⟩ := labelsOf_spec h
+  have hlen : w.lists.length < w₁.lists.length := by rw [hls]; simp
+  have hown := owners_xrun (G := G) hlen ops hk
+  rw [hls] at hown
+  simp only [List.getElem?_concat_length, Option.map_some] at hown
+  obtain ⟨L, items, hl, _, _, _⟩ := edit_spec he
+  rw [hl] at hown
+  simp only [Option.map_some, Option.some.injEq] at hown
+  exact edit_detached hl hown he
+
+/-! the constructor that stores a list of its own (`adopts = false`): no list object of the caller is
+ever shared, so no list operation whatsoever changes the world, and the heap of such a history is the
+heap of a history of the heap model - every theorem above about all histories applies -/
+
+theorem allDetached_step {w w' : World K} {op : XOp K} (hd : AllDetached w)
+    (h : xstep false G w op = .ok w') : AllDetached w' := by
+  cases op with
+  | heap o =>
+    simp only [xstep] at h
+    cases hs : step G w.heap o with
+    | error e => simp [hs] at h
+    | ok s' => simp only [hs, Except.ok.injEq] at h; subst h; exact hd
+  | fieldsOf c =>
+    obtain ⟨_, o, _, _, hls⟩ := fieldsOf_spec h
+    intro L hL; rw [hls, List.mem_append] at hL
+    rcases hL with hL | hL
+    · exact hd L hL
+    · simp only [List.mem_singleton] at hL; subst hL; rfl
+  | labelsOf c =>
+    obtain ⟨_, o, _, _, hls⟩ := labelsOf_spec h
+    intro L hL; rw [hls, List.mem_append] at hL
+    rcases hL with hL | hL
+    · exact hd L hL
+    · simp only [List.mem_singleton] at hL; subst hL; rfl
+  | userList hs =>
+    simp only [xstep, Except.ok.injEq] at h; subst h
+    intro L hL; simp only [List.mem_append, List.mem_singleton] at hL
+    rcases hL with hL | hL
+    · exact hd L hL
+    · subst hL; rfl
+  | mkCollFrom l' cp dt =>
+    simp only [xstep] at h
+    cases hl' : w.lists[l']? with
+    | none => simp [hl'] at h
+    | some L =>
+      simp only [hl'] at h
+      split at h
+      · simp at h
+      · cases hm : mkColl w.heap L.items cp dt with
+        | error e => simp [hm] at h
+        | ok s' =>
+          simp only [hm, Bool.false_and, Bool.false_eq_true, if_false, Except.ok.injEq] at h
+          subst h; exact hd
+  | edit l' e =>
+    obtain ⟨L, items, hl, _, _, _⟩ := edit_spec h
+    intro L' hL'
+    obtain ⟨j, hj⟩ := List.getElem?_of_mem hL'
+    by_cases hjl : j = l'
+    · subst hjl
+      have := (edit_other_lists h).2
+      rw [hj, hl] at this
+      simp only [Option.map_some, Option.some.injEq, Prod.mk.injEq] at this
+      rw [this.2]; exact hd L (List.mem_of_getElem? hl)
+    · rw [(edit_other_lists h).1 j hjl] at hj
+      exact hd L' (List.mem_of_getElem? hj)
+
+theorem allDetached_xrun {w : World K} (hd : AllDetached w) (ops : List (XOp K)) :
+    AllDetached (xrun false G w ops) := by
+  induction ops generalizing w with
+  | nil => exact hd
+  | cons op ops ih =>
+    rw [xrun_cons]
+    cases hs : xstep false G w op with
+    | error e => exact ih hd
+    | ok w' => exact ih (allDetached_step hd hs)
+
+/-- **no operation on any list of the caller changes the world** (constructor with a list of its
+own): after every history, for every list object and every in-place operation -/
+theorem no_list_edit_changes_world {w : World K} (hd : AllDetached w) (ops : List (XOp K))
+    {l : Nat} {e : ListEdit} {w' : World K}
+    (h : xstep false G (xrun false G w ops) (.edit l e) = .ok w') :
+    w'.heap = (xrun false G w ops).heap := by
+  obtain ⟨L, _, hl, _, _, _⟩ := edit_spec h
+  exact edit_detached hl (allDetached_xrun hd ops L (List.mem_of_getElem? hl)) h
+
+theorem run_append (s : State K) (ops₁ ops₂ : List (Op K)) :
+    run G s (ops₁ ++ ops₂) = run G (run G s ops₁) ops₂ := by
+  induction ops₁ generalizing s with
+  | nil => rfl
+  | cons op ops ih => simp only [List.cons_append, run_cons, ih]
+
+/-- **composition with the heap model**: the heap of a history with list objects is the heap of a
+history of `Heap.step` operations alone (hand-outs and list edits drop out, a construction from a list
+is the constructor on the items the list holds at that moment) -/
+theorem xrun_heap_is_run {w : World K} (hd : AllDetached w) (ops : List (XOp K)) :
+    ∃ ops' : List (Op K), (xrun false G w ops).heap = run G w.heap ops' := by
+  induction ops generalizing w with
+  | nil => exact ⟨[], rfl⟩
+  | cons op ops ih =>
+    rw [xrun_cons]
+    cases hs : xstep false G w op with
+    | error e => exact ih hd
+    | ok w' =>
+      simp only
+      obtain ⟨ops', h'⟩ := ih (allDetached_step hd hs)
+      have key : ∃ pre : List (Op K), w'.heap = run G w.heap pre := by
+        cases op with
+        | heap o =>
+          simp only [xstep] at hs
+          cases hst : step G w.heap o with
+          | error e => simp [hst] at hs
+          | ok s' =>
+            simp only [hst, Except.ok.injEq] at hs; subst hs
+            exact ⟨[o], by simp [run, hst]⟩
+        | fieldsOf c => exact ⟨[], (fieldsOf_spec hs).1⟩
+        | labelsOf c => exact ⟨[], (labelsOf_spec hs).1⟩
+        | userList hs' => simp only [xstep, Except.ok.injEq] at hs; subst hs; exact ⟨[], rfl⟩
+        | mkCollFrom l' cp dt =>
+          simp only [xstep] at hs
+          cases hl' : w.lists[l']? with
+          | none => simp [hl'] at hs
+          | some L =>
+            simp only [hl'] at hs
+            split at hs
+            · simp at hs
+            · cases hm : mkColl w.heap L.items cp dt with
+              | error e => simp [hm] at hs
+              | ok s' =>
+                simp only [hm, Bool.false_and, Bool.false_eq_true, if_false, Except.ok.injEq] at hs
+                subst hs
+                exact ⟨[.mkColl L.items cp dt], by simp [run, step, hm]⟩
+        | edit l' e =>
+          obtain ⟨L, _, hl, _, _, _⟩ := edit_spec hs
+          exact ⟨[], edit_detached hl (hd L (List.mem_of_getElem? hl)) hs⟩
+      obtain ⟨pre, hpre⟩ := key
+      refine ⟨pre ++ ops', ?_⟩
+      rw [h', hpre]
+      exact (run_append w.heap pre ops').symm
+
+/-- the invariants of the heap model hold after every history with list objects (constructor with a
+list of its own) -/
+theorem inv_xrun {w : World K} (hd : AllDetached w) (hi : Inv G w.heap) (ops : List (XOp K)) :
+    Inv G (xrun false G w ops).heap := by
+  obtain ⟨ops', h⟩ := xrun_heap_is_run (G := G) hd ops
+  rw [h]; exact inv_run hi ops'
+
+theorem dataLive_xrun {w : World K} (hd : AllDetached w) (hl : DataLive w.heap) (ops : List (XOp K)) :
+    DataLive (xrun false G w ops).heap := by
+  obtain ⟨ops', h⟩ := xrun_heap_is_run (G := G) hd ops
+  rw [h]; exact dataLive_run hl ops'
+
+theorem allDetached_empty : AllDetached ({} : World K) := fun _ h => by simp at h
+
+/-- the constructor that keeps the list of its caller (`self._fields = fields`, collection.py:99):
+after `FieldCollection(lst)` (`copy_fields=False`, pairwise different fields) the new collection - the
+last object - is an owner of `lst`; by `edit_owned_changes_members` every later in-place operation on
+`lst` re-writes its member list while `edit_never_touches_memory` leaves the layout as built -/
+theorem caller_list_kept {w w' : World K} {l : Nat} {L : PyList} {dt : Option DType}
+    (hl : w.lists[l]? = some L) (hk : L.kind ≠ .labels) (hn : L.items.Nodup)
+    (h : xstep true G w (.mkCollFrom l false dt) = .ok w') :
+    w'.lists[l]? = some { L with owners := L.owners ++ [w'.heap.objs.length - 1] } := by
+  simp only [xstep, hl] at h
+  have hk' : (L.kind == ListKind.labels) = false := by simpa using hk
+  simp only [hk', Bool.false_eq_true, if_false] at h
+  cases hm : mkColl w.heap L.items false dt with
+  | error e => simp [hm] at h
+  | ok s' =>
+    simp only [hm, Bool.true_and, Bool.not_false, decide_eq_true_eq, hn, if_true, Except.ok.injEq] at h
+    subst h
+    simp [hl]
+
+end
+
+/-! ### non-vacuity of the statements about list objects (`Int` values, one 1-d grid with 2 cells) -/
+
+/-- two scalar fields, `lst = [f0, f1]`, `fc = FieldCollection(lst)`, `got = fc.fields` -/
+def exLists : List (XOp Int) :=
+  [ .heap (.mkField .scalar 0 none false (.valid [0, 1, 2, 0])),
+    .heap (.mkField .scalar 0 none false (.valid [0, 3, 4, 0])),
+    .userList [0, 1],
+    .mkCollFrom 0 false none,
+    .fieldsOf 2 ]
+
+/-- the hypotheses of `handed_out_list_is_a_copy` are satisfiable, for both constructors: the list
+`got` (list object 1) reads the members in order and has no owner; reversing it, replacing an entry,
+shortening it leave the collection as it is -/
+example : ∀ a : Bool,
+    ((xrun a exGrid {} exLists).lists[1]?).map (fun L => (L.items, L.owners)) = some ([0, 1], []) ∧
+    ((xrun a exGrid {} (exLists ++ [.edit 1 .reverse, .edit 1 (.setItem 0 1), .edit 1 (.pop none)])).heap.objs.map
+        (·.members)) = [[], [], [0, 1]] ∧
+    ((xrun a exGrid {} (exLists ++ [.edit 1 .reverse, .edit 1 (.setItem 0 1), .edit 1 (.pop none)])).lists[1]?).map
+        (·.items) = some [1] := by decide +kernel
+
+/-- the constructor of /repo (`adopts = true`) keeps the list of its caller: reversing `lst` (list
+object 0) afterwards reverses the members of the collection while field 0 still looks at block 0
+of the collection's array and field 1 at block 1 - "the layout fixed as fields in order" is lost;
+with a constructor that stores a list of its own (`adopts = false`) nothing happens -/
+example :
+    ((xrun true exGrid {} (exLists ++ [.edit 0 .reverse])).heap.objs.map (·.members)) = [[], [], [1, 0]] ∧
+    ((xrun true exGrid {} (exLists ++ [.edit 0 .reverse])).heap.objs.map (·.view)) =
+      [⟨2, 0, 4⟩, ⟨2, 4, 4⟩, ⟨2, 0, 8⟩] ∧
+    ((xrun false exGrid {} (exLists ++ [.edit 0 .reverse])).heap.objs.map (·.members)) = [[], [], [0, 1]] := by
+  decide +kernel
+
+/-- the hypothesis "no owner" of `edit_detached` is necessary, and the state a `fields` property
+that returns the member list itself would produce is a state of the model: the same world with list
+object 1 owned by the collection - popping from the handed-out list shortens the collection -/
+example :
+    let w := xrun false exGrid {} exLists
+    let w' : World Int := { w with lists := w.lists.modify 1 (fun L => { L with owners := [2] }) }
+    ((xrun false exGrid w' [.edit 1 (.pop none)]).heap.objs.map (·.members)) = [[], [], [0]] ∧
+    ((xrun false exGrid w [.edit 1 (.pop none)]).heap.objs.map (·.members)) = [[], [], [0, 1]] := by
+  decide +kernel
+
+/-- `AllDetached` holds in the empty world and `keeps` is decidable on a concrete history -/
+example : ∀ op ∈ exLists ++ [XOp.edit 1 .reverse], ¬ keeps true 1 op := by
+  intro op h; simp only [exLists, List.cons_append, List.nil_append, List.mem_cons, List.not_mem_nil, or_false] at h
+  rcases h with h | h | h | h | h | h <;> subst h <;> simp [keeps]
 
 end PdeVerif.Heap
